@@ -1,6 +1,6 @@
 (* Proofs about the wavefunction model (property C12). *)
 Require Import Coq.ZArith.ZArith Coq.QArith.QArith Coq.QArith.Qabs Coq.Lists.List Coq.Bool.Bool Coq.micromega.Lia.
-Require Import Coq.Sorting.Permutation Coq.Arith.PeanoNat.
+Require Import Coq.Sorting.Permutation Coq.Sorting.Sorted Coq.Arith.PeanoNat.
 Require Import OQ.Base.CaseEq OQ.Gen.GosperGen OQ.State.Wavefunction.
 Import ListNotations.
 Local Open Scope nat_scope.
@@ -136,7 +136,7 @@ Proof.
   - split; [|split; [congruence|split; [reflexivity|left; reflexivity]]].
     unfold Inv. cbn [amps bk fst snd]. rewrite write_length by exact Hlen. repeat split; try assumption.
     intro Hb. apply has_symb_write; auto.
-  - rewrite write_restore by exact Hlen. destruct s as [b l]. cbn [bk amps fst snd].
+  - destruct s as [b l]. cbn [bk amps fst snd] in *.
     split; [repeat split; assumption|]. split; [reflexivity|]. split; [discriminate|right; reflexivity].
 Qed.
 
@@ -157,20 +157,36 @@ Proof.
   - intro Hb. apply is_mat_false in Hb. rewrite Hb in Et. cbn in Et. cbn. rewrite Et. reflexivity.
 Qed.
 
+Lemma set_item_list_spec s i vs s' r : Inv tol s -> set_item_list tol s i vs = (s', r) ->
+  Inv tol s' /\ (r <> Ok -> s' = s).
+Proof.
+  intros HI. unfold set_item_list. set (n := Z.of_nat (length (amps s))).
+  assert (Hid : forall e, (s, e) = (s', r) -> Inv tol s' /\ (r <> Ok -> s' = s))
+    by (intros e H; inversion H; subst; split; [assumption|reflexivity]).
+  destruct ((i <? - n)%Z || (n <=? i)%Z) eqn:Er; [apply Hid|].
+  apply orb_false_iff in Er. destruct Er as [E1 E2]. apply Z.ltb_ge in E1. apply Z.leb_gt in E2.
+  set (a := Z.to_nat (if (i <? 0)%Z then (i + n)%Z else i)).
+  assert (Ha : a < length (amps s)) by (subst a n; destruct (Z.ltb_spec i 0); lia).
+  destruct (bk s) eqn:Ebk.
+  - apply Hid.
+  - destruct (has_symb vs) eqn:Es; [apply Hid|].
+    destruct vs as [|v [|v2 vs]]; try apply Hid.
+    intro H. apply assign_spec in H; [tauto|assumption|cbn [length]; lia|intros _; exact Es].
+  - destruct (Nat.leb_spec (a + length vs) (length (amps s))) as [Hl|Hl]; [|apply Hid].
+    intro H. apply assign_spec in H; [tauto|assumption|exact Hl|congruence].
+Qed.
+
 Lemma clip_range n i : (0 <= n)%Z -> (0 <= clip n i <= n)%Z.
 Proof. intro H. unfold clip. destruct (Z.ltb_spec i 0); lia. Qed.
 
 Lemma write_nil {A} (l : list A) lo : write l lo [] = l.
 Proof. unfold write. cbn [length app]. rewrite Nat.add_0_r. apply firstn_skipn. Qed.
 
-Lemma num_prefix_nil vs : is_symb (hd (Symb 1) vs) = true -> num_prefix vs = [].
-Proof. destruct vs as [|[re im|id] vs]; cbn; congruence. Qed.
-
-Lemma set_slice_spec s lo hi vs s' r : Inv tol s -> partial_write_hazard s (SetSlice lo hi vs) = false ->
+Lemma set_slice_spec s lo hi vs s' r : Inv tol s ->
   set_slice tol s lo hi vs = (s', r) ->
   Inv tol s' /\ (r <> Ok -> s' = s).
 Proof.
-  intros HI Hz. unfold set_slice. unfold partial_write_hazard in Hz. set (n := Z.of_nat (length (amps s))).
+  intros HI. unfold set_slice. set (n := Z.of_nat (length (amps s))).
   assert (Hn : (0 <= n)%Z) by (subst n; lia).
   pose proof (clip_range n lo Hn) as Ha. pose proof (clip_range n hi Hn) as Hb.
   set (a := clip n lo) in *. set (b := clip n hi) in *.
@@ -185,11 +201,7 @@ Proof.
   destruct (bk s) eqn:Ebk.
   - (* NpFlat *)
     destruct (has_symb vs) eqn:Es.
-    { fold n a b m in Hz. destruct (Nat.eqb (length vs) m).
-      - cbn [andb negb] in Hz. apply negb_false_iff in Hz. rewrite (num_prefix_nil vs Hz), write_nil.
-        intro H; inversion H; subst. destruct s as [b0 l0]. cbn [bk amps fst snd] in *. subst b0.
-        split; [assumption|reflexivity].
-      - intro H; inversion H; subst. split; [assumption|reflexivity]. }
+    { intro H; inversion H; subst. split; [assumption|reflexivity]. }
     destruct (Nat.eqb_spec (length vs) m) as [Ek|Ek].
     + intro H. apply assign_spec in H; [tauto|assumption|lia|auto].
     + destruct vs as [|v [|v2 vs]]; try exact Hid.
@@ -220,35 +232,32 @@ Proof.
     split; [intros _; split; reflexivity|]. split; [congruence|left; reflexivity].
 Qed.
 
-Lemma step_spec s o s' r : Inv tol s -> partial_write_hazard s o = false ->
+Lemma step_spec s o s' r : Inv tol s ->
   step tol s o = (s', r) -> Inv tol s' /\ (r <> Ok -> s' = s).
 Proof.
-  intros HI Hz. destruct o as [i v|lo hi vs|m]; cbn [step].
+  intros HI. destruct o as [i v|i vs|lo hi vs|m]; cbn [step].
   - apply set_item_spec. exact HI.
-  - apply set_slice_spec; assumption.
+  - apply set_item_list_spec. exact HI.
+  - apply set_slice_spec. exact HI.
   - destruct (bind tol s m) as [[s2 r2] al] eqn:E. cbn [fst]. intro H; inversion H; subst.
     apply bind_spec in E; [tauto|exact HI].
 Qed.
 
-Lemma run_inv ops : forall s, Inv tol s -> safe_history tol s ops = true -> Inv tol (run tol s ops).
+Lemma run_inv ops : forall s, Inv tol s -> Inv tol (run tol s ops).
 Proof.
-  induction ops as [|o ops IH]; intros s HI Hs; cbn [run fold_left]; [exact HI|].
-  cbn [safe_history] in Hs. apply andb_true_iff in Hs. destruct Hs as [Hz Hs]. apply negb_true_iff in Hz.
-  apply IH; [|exact Hs]. destruct (step tol s o) as [s' r] eqn:E. cbn [fst]. apply (step_spec s o s' r HI Hz E).
+  induction ops as [|o ops IH]; intros s HI; cbn [run fold_left]; [exact HI|].
+  apply IH. destruct (step tol s o) as [s' r] eqn:E. cbn [fst]. apply (step_spec s o s' r HI E).
 Qed.
 
-Lemma run_inv_created col v s0 ops : create tol col v = Some s0 -> safe_history tol s0 ops = true ->
-  Inv tol (run tol s0 ops).
-Proof. intros H Hs. apply run_inv; [apply (create_some col v s0 H)|exact Hs]. Qed.
+Lemma run_inv_created col v s0 ops : create tol col v = Some s0 -> Inv tol (run tol s0 ops).
+Proof. intro H. apply run_inv. apply (create_some col v s0 H). Qed.
 
 (* every snapshot of a history satisfies the invariant, and a step that reports an error leaves the snapshot as it was *)
-Lemma trace_inv ops : forall s, Inv tol s -> safe_history tol s ops = true ->
-  Forall (fun rs => Inv tol (snd rs)) (trace tol s ops).
+Lemma trace_inv ops : forall s, Inv tol s -> Forall (fun rs => Inv tol (snd rs)) (trace tol s ops).
 Proof.
-  induction ops as [|o ops IH]; intros s HI Hs; cbn [trace]; [constructor|].
-  cbn [safe_history] in Hs. apply andb_true_iff in Hs. destruct Hs as [Hz Hs]. apply negb_true_iff in Hz.
-  destruct (step tol s o) as [s' r] eqn:E. destruct (step_spec s o s' r HI Hz E) as [HI' _].
-  cbn [fst] in Hs. constructor; [exact HI'|apply IH; assumption].
+  induction ops as [|o ops IH]; intros s HI; cbn [trace]; [constructor|].
+  destruct (step tol s o) as [s' r] eqn:E. destruct (step_spec s o s' r HI E) as [HI' _].
+  constructor; [exact HI'|apply IH; exact HI'].
 Qed.
 
 Fixpoint unchanged_on_error (prev : state) (t : list (outcome * state)) : Prop :=
@@ -256,38 +265,17 @@ Fixpoint unchanged_on_error (prev : state) (t : list (outcome * state)) : Prop :
   | [] => True
   | (r, s) :: rest => (r <> Ok -> s = prev) /\ unchanged_on_error s rest
   end.
-Lemma trace_unchanged ops : forall s, Inv tol s -> safe_history tol s ops = true ->
-  unchanged_on_error s (trace tol s ops).
+Lemma trace_unchanged ops : forall s, Inv tol s -> unchanged_on_error s (trace tol s ops).
 Proof.
-  induction ops as [|o ops IH]; intros s HI Hs; cbn [trace unchanged_on_error]; [exact I|].
-  cbn [safe_history] in Hs. apply andb_true_iff in Hs. destruct Hs as [Hz Hs]. apply negb_true_iff in Hz.
-  destruct (step tol s o) as [s' r] eqn:E. destruct (step_spec s o s' r HI Hz E) as [HI' Hu].
-  cbn [fst] in Hs. cbn [unchanged_on_error]. split; [exact Hu|apply IH; assumption].
+  induction ops as [|o ops IH]; intros s HI; cbn [trace unchanged_on_error]; [exact I|].
+  destruct (step tol s o) as [s' r] eqn:E. destruct (step_spec s o s' r HI E) as [HI' Hu].
+  cbn [unchanged_on_error]. split; [exact Hu|apply IH; exact HI'].
 Qed.
 
-(* histories whose slice assignments carry no symbols are safe, whatever the object *)
-Lemma numeric_slices_no_hazard s o : slice_values_numeric o = true -> partial_write_hazard s o = false.
-Proof.
-  destruct o as [i v|lo hi vs|m]; cbn [slice_values_numeric partial_write_hazard]; try reflexivity.
-  intro H. apply negb_true_iff in H. rewrite H. destruct (bk s); reflexivity.
-Qed.
-Lemma numeric_slices_safe ops : forallb slice_values_numeric ops = true -> forall s, safe_history tol s ops = true.
-Proof.
-  induction ops as [|o ops IH]; intros H s; cbn [safe_history]; [reflexivity|].
-  cbn [forallb] in H. apply andb_true_iff in H. destruct H as [H1 H2].
-  rewrite (numeric_slices_no_hazard s o H1). cbn [negb andb]. apply IH. exact H2.
-Qed.
-
-(* the defect itself, in the model: an error is reported, the object has changed and is no longer normalised *)
-Lemma partial_write_breaks :
-  let s := (NpFlat, [Num 1 0; Num 0 0]) in
-  let o := SetSlice 0 2 [Num (1 # 2) 0; Symb 1] in
-  Inv np_tol s /\ snd (step np_tol s o) = ErrType /\ fst (step np_tol s o) <> s /\
-  check np_tol (amps (fst (step np_tol s o))) = false.
-Proof.
-  cbv zeta. split; [repeat split; try reflexivity|]. split; [reflexivity|]. split; [|reflexivity].
-  vm_compute. intro H. discriminate H.
-Qed.
+(* a slice assignment that carries a symbol into flat numpy storage (the shape of finding F37): TypeError, object unchanged *)
+Lemma symbol_into_numpy_slice s lo hi vs : bk s = NpFlat -> has_symb vs = true ->
+  set_slice tol s lo hi vs = (s, ErrType).
+Proof. intros Hb Hs. unfold set_slice. rewrite Hb, Hs. reflexivity. Qed.
 
 (* an in-range assignment whose result would fail the test is rejected; an accepted one has exactly the written values *)
 Lemma set_item_effect s i v s' r : Inv tol s ->
@@ -305,8 +293,26 @@ Proof.
   unfold assign. cbn [length].
   destruct (check tol (write (amps s) (Z.to_nat i) [v])) eqn:E; intro H; inversion H; subst; clear H.
   - split; [auto|discriminate].
-  - split; [discriminate|]. intros _. split; [reflexivity|].
-    change 1 with (length [v]). rewrite write_restore by (cbn [length]; lia). destruct s; reflexivity.
+  - split; [discriminate|]. intros _. split; [reflexivity|]. destruct s; reflexivity.
+Qed.
+
+(* a list assigned at an integer index of a sympy-backed object spills over the following entries; the whole spill is
+   either accepted (and stored) or rejected with the object exactly as before *)
+Lemma set_item_list_effect s i vs s' r : Inv tol s -> bk s = Mat ->
+  (0 <= i < Z.of_nat (length (amps s)))%Z -> Z.to_nat i + length vs <= length (amps s) ->
+  set_item_list tol s i vs = (s', r) ->
+  (check tol (write (amps s) (Z.to_nat i) vs) = true -> r = Ok /\ s' = (Mat, write (amps s) (Z.to_nat i) vs)) /\
+  (check tol (write (amps s) (Z.to_nat i) vs) = false -> r = ErrValue /\ s' = s).
+Proof.
+  intros HI Hb Hi Hk. unfold set_item_list.
+  destruct (Z.ltb_spec i (- Z.of_nat (length (amps s)))) as [H1|H1]; [lia|].
+  destruct (Z.leb_spec (Z.of_nat (length (amps s))) i) as [H2|H2]; [lia|]. cbn [orb].
+  destruct (Z.ltb_spec i 0) as [H3|H3]; [lia|]. rewrite Hb.
+  destruct (Nat.leb_spec (Z.to_nat i + length vs) (length (amps s))) as [Hl|Hl]; [|lia].
+  unfold assign. rewrite Hb.
+  destruct (check tol (write (amps s) (Z.to_nat i) vs)) eqn:E; intro H; inversion H; subst; clear H.
+  - split; [auto|discriminate].
+  - split; [discriminate|]. intros _. split; [reflexivity|]. destruct s as [b l]. cbn [bk amps fst snd] in *. congruence.
 Qed.
 
 (* ---------------------------------------------------------------- probabilities *)
@@ -766,4 +772,307 @@ Proof.
   destruct (Z.ltb_spec n k); [split; [lia|reflexivity]|].
   destruct (Z.eqb_spec k 0); [split; [discriminate|lia]|].
   destruct (dicke_loop _ _ _ _); split; try discriminate; lia.
+Qed.
+
+Local Open Scope Z_scope.
+(* ---------------------------------------------------------------- the Gosper step, for every input *)
+Lemma testbit_hl h a m n : 0 <= m -> 0 <= a < 2 ^ m -> 0 <= n ->
+  Z.testbit (h * 2 ^ m + a) n = if n <? m then Z.testbit a n else Z.testbit h (n - m).
+Proof.
+  intros Hm Ha Hn. assert (Hp : 2 ^ m <> 0) by (apply Z.pow_nonzero; lia).
+  destruct (Z.ltb_spec n m) as [H|H].
+  - rewrite <- (Z.mod_pow2_bits_low (h * 2 ^ m + a) m n) by lia.
+    rewrite Z.add_comm, Z.mod_add by exact Hp. rewrite Z.mod_small by exact Ha. reflexivity.
+  - replace n with ((n - m) + m) at 1 by lia. rewrite <- Z.div_pow2_bits by lia.
+    rewrite Z.div_add_l by exact Hp. rewrite Z.div_small by exact Ha. rewrite Z.add_0_r. reflexivity.
+Qed.
+
+Lemma lor_hl h h' a b m : 0 <= m -> 0 <= a < 2 ^ m -> 0 <= b < 2 ^ m -> 0 <= Z.lor a b < 2 ^ m ->
+  Z.lor (h * 2 ^ m + a) (h' * 2 ^ m + b) = Z.lor h h' * 2 ^ m + Z.lor a b.
+Proof.
+  intros Hm Ha Hb Hab. apply Z.bits_inj'. intros n Hn.
+  rewrite Z.lor_spec, !testbit_hl by assumption.
+  destruct (n <? m); rewrite Z.lor_spec; reflexivity.
+Qed.
+
+Lemma lowbit B j : 0 <= j -> Z.land (B * 2 ^ (j + 1) + 2 ^ j) (- (B * 2 ^ (j + 1) + 2 ^ j)) = 2 ^ j.
+Proof.
+  intro Hj. assert (Hlt : 0 <= 2 ^ j < 2 ^ (j + 1)).
+  { split; [apply Z.pow_nonneg; lia|]. apply Z.pow_lt_mono_r; lia. }
+  assert (E2 : 2 ^ (j + 1) = 2 * 2 ^ j) by (rewrite Z.pow_add_r by lia; lia).
+  replace (- (B * 2 ^ (j + 1) + 2 ^ j)) with (Z.lnot B * 2 ^ (j + 1) + 2 ^ j) by (unfold Z.lnot; rewrite E2; lia).
+  replace (2 ^ j) with (0 * 2 ^ (j + 1) + 2 ^ j) at 3 by lia.
+  apply Z.bits_inj'. intros n Hn. rewrite Z.land_spec, !testbit_hl by lia.
+  destruct (n <? j + 1) eqn:E.
+  - apply andb_diag.
+  - apply Z.ltb_ge in E. rewrite Z.lnot_spec by lia. rewrite Z.testbit_0_l. apply andb_negb_r.
+Qed.
+
+Lemma lor_pred B j : 0 <= j ->
+  Z.lor (B * 2 ^ (j + 1) + 2 ^ j) (B * 2 ^ (j + 1) + 2 ^ j - 1) = B * 2 ^ (j + 1) + (2 ^ (j + 1) - 1).
+Proof.
+  intro Hj. assert (Hp : 0 < 2 ^ j) by (apply Z.pow_pos_nonneg; lia).
+  assert (E2 : 2 ^ (j + 1) = 2 * 2 ^ j) by (rewrite Z.pow_add_r by lia; lia).
+  assert (Elow : Z.lor (2 ^ j) (2 ^ j - 1) = 2 ^ (j + 1) - 1).
+  { replace (2 ^ j) with (1 * 2 ^ j + 0) at 1 by lia. replace (2 ^ j - 1) with (0 * 2 ^ j + (2 ^ j - 1)) by lia.
+    rewrite lor_hl by (rewrite ?Z.lor_0_l; lia). rewrite Z.lor_0_l. change (Z.lor 1 0) with 1. lia. }
+  replace (B * 2 ^ (j + 1) + 2 ^ j - 1) with (B * 2 ^ (j + 1) + (2 ^ j - 1)) by lia.
+  rewrite lor_hl by (rewrite ?Elow; lia). rewrite Z.lor_diag, Elow. reflexivity.
+Qed.
+
+(* closed form: the lowest block of c ones starting at bit j moves its top one up by one position and the
+   remaining c-1 ones drop to the bottom *)
+Lemma gosper_closed_form A c j : 0 <= A -> 1 <= c -> 0 <= j ->
+  get_next_number_with_same_hamming_weight (A * 2 ^ (j + c + 1) + (2 ^ c - 1) * 2 ^ j)
+  = A * 2 ^ (j + c + 1) + 2 ^ (j + c) + (2 ^ (c - 1) - 1).
+Proof.
+  intros HA Hc Hj. unfold get_next_number_with_same_hamming_weight.
+  set (B := A * 2 ^ c + (2 ^ (c - 1) - 1)).
+  assert (P1 : 0 < 2 ^ j) by (apply Z.pow_pos_nonneg; lia).
+  assert (P2 : 0 < 2 ^ (c - 1)) by (apply Z.pow_pos_nonneg; lia).
+  assert (Ec : 2 ^ c = 2 * 2 ^ (c - 1)) by (replace c with ((c - 1) + 1) at 1 by lia; rewrite Z.pow_add_r by lia; lia).
+  assert (Ej1 : 2 ^ (j + 1) = 2 * 2 ^ j) by (rewrite Z.pow_add_r by lia; lia).
+  assert (Ejc : 2 ^ (j + c) = 2 ^ j * 2 ^ c) by (rewrite Z.pow_add_r by lia; lia).
+  assert (Ejc1 : 2 ^ (j + c + 1) = 2 * 2 ^ (j + c)) by (rewrite (Z.pow_add_r 2 (j + c) 1) by lia; lia).
+  assert (Ev : A * 2 ^ (j + c + 1) + (2 ^ c - 1) * 2 ^ j = B * 2 ^ (j + 1) + 2 ^ j) by (subst B; nia).
+  rewrite Ev. cbv zeta. rewrite lor_pred by exact Hj. rewrite lowbit by exact Hj.
+  assert (Et : B * 2 ^ (j + 1) + (2 ^ (j + 1) - 1) + 1 = A * 2 ^ (j + c + 1) + 2 ^ (j + c)) by (subst B; nia).
+  rewrite Et. rewrite lowbit by lia.
+  assert (Eq : 2 ^ (j + c) / 2 ^ j = 2 ^ c) by (rewrite Ejc, Z.mul_comm, Z.div_mul by lia; reflexivity).
+  assert (Es : Z.shiftr (2 ^ c) 1 = 2 ^ (c - 1)).
+  { rewrite Z.shiftr_div_pow2 by lia. change (2 ^ 1) with 2. rewrite Ec, Z.mul_comm, Z.div_mul by lia. reflexivity. }
+  rewrite Eq, Es.
+  assert (Hr : 0 <= 2 ^ (c - 1) - 1 < 2 ^ (j + c)) by nia.
+  replace (A * 2 ^ (j + c + 1) + 2 ^ (j + c)) with ((2 * A + 1) * 2 ^ (j + c) + 0) at 1 by lia.
+  replace (2 ^ (c - 1) - 1) with (0 * 2 ^ (j + c) + (2 ^ (c - 1) - 1)) at 1 by lia.
+  rewrite lor_hl by (rewrite ?Z.lor_0_l; lia). rewrite Z.lor_0_l, Z.lor_0_r. lia.
+Qed.
+
+(* ---- popcount *)
+Lemma pos_popcount_pos p : 1 <= pos_popcount p.
+Proof. induction p; cbn [pos_popcount]; lia. Qed.
+
+Lemma popcount_nonneg x : 0 <= popcount x.
+Proof. destruct x; cbn [popcount]; try lia. pose proof (pos_popcount_pos p). lia. Qed.
+
+Lemma popcount_positive x : 0 < x -> 1 <= popcount x.
+Proof. destruct x; cbn [popcount]; try lia. intros _. apply pos_popcount_pos. Qed.
+
+Lemma popcount_double x : 0 <= x -> popcount (2 * x) = popcount x.
+Proof. destruct x; intro H; try reflexivity; lia. Qed.
+
+Lemma popcount_succ_double x : 0 <= x -> popcount (2 * x + 1) = 1 + popcount x.
+Proof. destruct x; intro H; try reflexivity; lia. Qed.
+
+Lemma popcount_hl m : 0 <= m -> forall h a, 0 <= h -> 0 <= a < 2 ^ m ->
+  popcount (h * 2 ^ m + a) = popcount h + popcount a.
+Proof.
+  intro Hm. pattern m. apply natlike_ind; [| |exact Hm]; clear m Hm.
+  - intros h a Hh Ha. change (2 ^ 0) with 1 in *. assert (a = 0) by lia. subst a. rewrite Z.mul_1_r, Z.add_0_r.
+    cbn [popcount]. lia.
+  - intros m Hm IH h a Hh Ha. rewrite Z.pow_succ_r in * by exact Hm.
+    pose proof (Z.div_mod a 2 ltac:(lia)) as Hdm. pose proof (Z.mod_pos_bound a 2 ltac:(lia)) as Hb.
+    assert (Hq : 0 <= a / 2 < 2 ^ m) by (split; [apply Z.div_pos; lia|apply Z.div_lt_upper_bound; lia]).
+    assert (Hx : 0 <= h * 2 ^ m + a / 2) by nia.
+    destruct (Z.eq_dec (a mod 2) 0) as [E|E].
+    + replace (h * (2 * 2 ^ m) + a) with (2 * (h * 2 ^ m + a / 2)) by lia.
+      rewrite popcount_double by exact Hx. rewrite IH by (exact Hh || exact Hq).
+      replace a with (2 * (a / 2)) at 2 by lia. rewrite popcount_double by lia. reflexivity.
+    + replace (h * (2 * 2 ^ m) + a) with (2 * (h * 2 ^ m + a / 2) + 1) by lia.
+      rewrite popcount_succ_double by exact Hx. rewrite IH by (exact Hh || exact Hq).
+      replace a with (2 * (a / 2) + 1) at 2 by lia. rewrite popcount_succ_double by lia. lia.
+Qed.
+
+Lemma popcount_pow2 k : 0 <= k -> popcount (2 ^ k) = 1.
+Proof.
+  intro Hk. assert (Hp : 0 < 2 ^ k) by (apply Z.pow_pos_nonneg; lia).
+  replace (2 ^ k) with (1 * 2 ^ k + 0) by lia.
+  rewrite popcount_hl by lia. reflexivity.
+Qed.
+
+Lemma popcount_ones c : 0 <= c -> popcount (2 ^ c - 1) = c.
+Proof.
+  intro Hc. pattern c. apply natlike_ind; [reflexivity| |exact Hc]. clear c Hc. intros c Hc IH.
+  rewrite Z.pow_succ_r by exact Hc. replace (2 * 2 ^ c - 1) with (2 * (2 ^ c - 1) + 1) by lia.
+  rewrite popcount_succ_double by (pose proof (Z.pow_pos_nonneg 2 c); lia). lia.
+Qed.
+
+(* below 2^m at most m ones, and m ones only for 2^m - 1 *)
+Lemma popcount_bound m : 0 <= m -> forall e, 0 <= e < 2 ^ m -> popcount e <= m /\ (popcount e = m -> e = 2 ^ m - 1).
+Proof.
+  intro Hm. pattern m. apply natlike_ind; [| |exact Hm]; clear m Hm.
+  - intros e He. change (2 ^ 0) with 1 in *. assert (e = 0) by lia. subst e. cbn. lia.
+  - intros m Hm IH e He. rewrite Z.pow_succ_r in * by exact Hm.
+    pose proof (Z.div_mod e 2 ltac:(lia)) as Hdm. pose proof (Z.mod_pos_bound e 2 ltac:(lia)) as Hb.
+    assert (Hq : 0 <= e / 2 < 2 ^ m) by (split; [apply Z.div_pos; lia|apply Z.div_lt_upper_bound; lia]).
+    destruct (IH (e / 2) Hq) as [I1 I2]. set (q := e / 2) in *. clearbody q.
+    destruct (Z.eq_dec (e mod 2) 0) as [E|E].
+    + assert (Ee : e = 2 * q) by lia. rewrite Ee. rewrite popcount_double by lia. split; lia.
+    + assert (Ee : e = 2 * q + 1) by lia. rewrite Ee. rewrite popcount_succ_double by lia. split; [lia|].
+      intro H. assert (H' : popcount q = m) by lia. specialize (I2 H'). lia.
+Qed.
+
+(* ---- every positive number has the block decomposition *)
+Lemma odd_decomposition p : exists A c, 0 <= A /\ 1 <= c /\ Zpos p~1 = A * 2 ^ (c + 1) + (2 ^ c - 1).
+Proof.
+  induction p as [p IH|p _|].
+  - destruct IH as (A & c & HA & Hc & E). exists A, (c + 1). split; [exact HA|]. split; [lia|].
+    rewrite Pos2Z.inj_xI, E. rewrite !(Z.pow_add_r 2 _ 1) by lia. change (2 ^ 1) with 2. lia.
+  - exists (Zpos p), 1. split; [lia|]. split; [lia|]. rewrite Pos2Z.inj_xI, Pos2Z.inj_xO. change (2 ^ (1 + 1)) with 4.
+    change (2 ^ 1) with 2. lia.
+  - exists 0, 2. cbn. lia.
+Qed.
+
+Lemma block_decomposition p : exists A c j, 0 <= A /\ 1 <= c /\ 0 <= j /\
+  Zpos p = A * 2 ^ (j + c + 1) + (2 ^ c - 1) * 2 ^ j.
+Proof.
+  induction p as [p _|p IH|].
+  - destruct (odd_decomposition p) as (A & c & HA & Hc & E). exists A, c, 0.
+    repeat split; try assumption; try lia. rewrite E. change (2 ^ 0) with 1. rewrite Z.add_0_l. lia.
+  - destruct IH as (A & c & j & HA & Hc & Hj & E). exists A, c, (j + 1).
+    repeat split; try assumption; try lia. rewrite Pos2Z.inj_xO, E.
+    replace (j + 1 + c + 1) with ((j + c + 1) + 1) by lia. rewrite !(Z.pow_add_r 2 _ 1) by lia.
+    change (2 ^ 1) with 2. lia.
+  - exists 0, 1, 0. cbn. lia.
+Qed.
+
+(* ---- the step is correct for every positive input: the result is larger, has the same number of ones, and no
+        number strictly in between has that many ones (so it is THE next number with the same Hamming weight) *)
+Lemma gosper_next_spec v : 0 < v ->
+  let w := get_next_number_with_same_hamming_weight v in
+  v < w /\ popcount w = popcount v /\ (forall u, v < u < w -> popcount u <> popcount v).
+Proof.
+  intro Hv. destruct v as [|p|p]; try lia. clear Hv.
+  destruct (block_decomposition p) as (A & c & j & HA & Hc & Hj & E). rewrite E. cbv zeta.
+  rewrite gosper_closed_form by assumption.
+  assert (P1 : 0 < 2 ^ j) by (apply Z.pow_pos_nonneg; lia).
+  assert (P2 : 0 < 2 ^ (c - 1)) by (apply Z.pow_pos_nonneg; lia).
+  assert (Ec : 2 ^ c = 2 * 2 ^ (c - 1)) by (replace c with ((c - 1) + 1) at 1 by lia; rewrite Z.pow_add_r by lia; lia).
+  assert (Ejc : 2 ^ (j + c) = 2 ^ j * 2 ^ c) by (rewrite Z.pow_add_r by lia; lia).
+  assert (Ejc1 : 2 ^ (j + c + 1) = 2 * 2 ^ (j + c)) by (rewrite (Z.pow_add_r 2 (j + c) 1) by lia; lia).
+  set (X := 2 ^ (j + c)) in *. set (Y := 2 ^ j) in *. set (Cm := 2 ^ (c - 1)) in *. set (C := 2 ^ c) in *.
+  assert (HX : 0 < X) by nia.
+  (* popcounts of the two numbers *)
+  assert (Pv : popcount (A * 2 ^ (j + c + 1) + (C - 1) * Y) = popcount A + c).
+  { rewrite popcount_hl by (try lia; nia). f_equal.
+    replace ((C - 1) * Y) with ((C - 1) * 2 ^ j + 0) by (subst Y; lia).
+    rewrite popcount_hl by (subst C; lia). subst C. rewrite popcount_ones by lia. change (popcount 0) with 0. lia. }
+  assert (Pw : popcount (A * 2 ^ (j + c + 1) + X + (Cm - 1)) = popcount A + c).
+  { replace (A * 2 ^ (j + c + 1) + X + (Cm - 1)) with (A * 2 ^ (j + c + 1) + (1 * 2 ^ (j + c) + (Cm - 1))) by (subst X; lia).
+    rewrite popcount_hl by (try lia; fold X; nia).
+    rewrite popcount_hl by (try lia; fold X; nia). subst Cm. rewrite popcount_ones by lia. change (popcount 1) with 1. lia. }
+  split; [nia|]. split; [rewrite Pv, Pw; reflexivity|].
+  intros u Hu. rewrite Pv.
+  (* u has the same high part A *)
+  set (lo := u - A * 2 ^ (j + c + 1)).
+  assert (Hlo : (C - 1) * Y < lo < X + (Cm - 1)) by (subst lo; lia).
+  assert (Hlo2 : 0 <= lo < 2 ^ (j + c + 1)) by nia.
+  replace u with (A * 2 ^ (j + c + 1) + lo) by (subst lo; lia).
+  rewrite popcount_hl by (try lia).
+  destruct (Z.lt_ge_cases lo X) as [Hlt|Hge].
+  - (* all c ones of the block still there, plus something below bit j *)
+    set (e := lo - (C - 1) * Y).
+    assert (He : 0 < e < Y) by (subst e; nia).
+    replace lo with ((C - 1) * 2 ^ j + e) by (subst e Y; lia).
+    rewrite popcount_hl by (subst C Y; lia). subst C. rewrite popcount_ones by lia.
+    pose proof (popcount_positive e ltac:(lia)). lia.
+  - (* bit j+c set, and fewer than c-1 ones below *)
+    set (e := lo - X).
+    assert (He : 0 <= e < Cm - 1) by (subst e; lia).
+    replace lo with (1 * 2 ^ (j + c) + e) by (subst e X; lia).
+    rewrite popcount_hl by (try lia; fold X; nia).
+    destruct (popcount_bound (c - 1) ltac:(lia) e ltac:(fold Cm; lia)) as [B1 B2]. fold Cm in B2.
+    change (popcount 1) with 1. intro Hc'. assert (popcount e = c - 1) by lia. specialize (B2 H). lia.
+Qed.
+
+(* ---- the Dicke loop for every n *)
+
+Lemma msb_le_iff w n : 0 < w -> (most_significant_set_bit w <=? n) = true <-> w < 2 ^ n.
+Proof.
+  intro Hw. unfold most_significant_set_bit. rewrite Z.leb_le.
+  destruct (Z.lt_ge_cases n 0) as [Hn|Hn].
+  - rewrite (Z.pow_neg_r 2 n Hn). pose proof (Z.log2_nonneg w). lia.
+  - rewrite (Z.log2_lt_pow2 w n Hw). lia.
+Qed.
+
+Lemma dicke_loop_spec k n fuel : forall cur acc,
+  0 < cur < 2 ^ n -> popcount cur = k -> 2 ^ n - cur <= Z.of_nat fuel ->
+  exists L, dicke_loop fuel n cur acc = Some (rev acc ++ L) /\
+            (forall i, In i L <-> cur < i < 2 ^ n /\ popcount i = k) /\
+            StronglySorted Z.lt L.
+Proof.
+  induction fuel as [|f IH]; intros cur acc Hc Hp Hf; [cbn in Hf; lia|].
+  cbn [dicke_loop]. destruct (gosper_next_spec cur ltac:(lia)) as (Hlt & Hpop & Hmin).
+  set (nxt := get_next_number_with_same_hamming_weight cur) in *. cbv zeta.
+  destruct (most_significant_set_bit nxt <=? n) eqn:E.
+  - apply (msb_le_iff nxt n ltac:(lia)) in E.
+    destruct (IH nxt (nxt :: acc) ltac:(lia) ltac:(congruence) ltac:(lia)) as (L & EL & HL & HS).
+    exists (nxt :: L). split; [rewrite EL; cbn [rev]; rewrite <- app_assoc; reflexivity|]. split.
+    + intro i. cbn [In]. rewrite HL. split.
+      * intros [H|H]; [subst i; split; [lia|congruence]|]. split; [lia|tauto].
+      * intros [H1 H2]. destruct (Z.lt_trichotomy i nxt) as [H|[H|H]]; [|left; congruence|right; split; [lia|exact H2]].
+        exfalso. apply (Hmin i ltac:(lia)). congruence.
+    + constructor; [exact HS|]. apply Forall_forall. intros i Hi. apply HL in Hi. lia.
+  - exists []. split; [rewrite app_nil_r; reflexivity|]. split; [|constructor].
+    intro i. cbn [In]. split; [intros []|]. intros [H1 H2].
+    assert (Hge : ~ nxt < 2 ^ n) by (intro H; apply (msb_le_iff nxt n ltac:(lia)) in H; congruence).
+    apply (Hmin i ltac:(lia)). congruence.
+Qed.
+
+Lemma sorted_lt_NoDup l : StronglySorted Z.lt l -> NoDup l.
+Proof.
+  induction 1 as [|x l _ IH Hx]; constructor; [|exact IH].
+  intro Hin. rewrite Forall_forall in Hx. specialize (Hx x Hin). lia.
+Qed.
+
+Lemma dicke_indices_all n k : 1 <= n -> 0 <= k <= n ->
+  exists idx, dicke_indices n k = DIdx idx /\
+    (forall i, In i idx <-> 0 <= i < 2 ^ n /\ popcount i = k) /\ StronglySorted Z.lt idx.
+Proof.
+  intros Hn Hk. unfold dicke_indices.
+  destruct (Z.leb_spec n 0) as [G0|G0]; [lia|]. destruct (Z.ltb_spec k 0) as [G1|G1]; [lia|].
+  destruct (Z.ltb_spec n k) as [G2|G2]; [lia|].
+  assert (Pn : 0 < 2 ^ n) by (apply Z.pow_pos_nonneg; lia).
+  destruct (Z.eqb_spec k 0) as [Ek|Ek].
+  - exists [0]. split; [reflexivity|]. split; [|repeat constructor].
+    intro i. cbn [In]. split.
+    + intros [H|[]]. subst i k. split; [lia|reflexivity].
+    + intros [H1 H2]. left. destruct (Z.eq_dec i 0) as [|Hne]; [congruence|].
+      pose proof (popcount_positive i ltac:(lia)). lia.
+  - assert (Pk : 0 < 2 ^ k) by (apply Z.pow_pos_nonneg; lia).
+    assert (Hkn : 2 ^ k <= 2 ^ n) by (apply Z.pow_le_mono_r; lia).
+    assert (Ek2 : 2 <= 2 ^ k) by (change 2 with (2 ^ 1) at 1; apply Z.pow_le_mono_r; lia).
+    destruct (dicke_loop_spec k n (Z.to_nat (2 ^ n)) (2 ^ k - 1) [2 ^ k - 1] ltac:(lia)
+                (popcount_ones k ltac:(lia)) ltac:(lia)) as (L & EL & HL & HS).
+    rewrite EL. exists (2 ^ k - 1 :: L). split; [reflexivity|]. split.
+    + intro i. cbn [In]. rewrite HL. split.
+      * intros [H|H]; [subst i; split; [lia|apply popcount_ones; lia]|]. split; [lia|tauto].
+      * intros [H1 H2]. destruct (Z.eq_dec i (2 ^ k - 1)) as [|Hne]; [left; congruence|right].
+        split; [|exact H2]. split; [|lia].
+        destruct (Z.lt_ge_cases i (2 ^ k)) as [Hlt|Hge]; [|lia].
+        destruct (popcount_bound k ltac:(lia) i ltac:(lia)) as [_ B]. specialize (B H2). lia.
+    + constructor; [exact HS|]. apply Forall_forall. intros i Hi. apply HL in Hi. lia.
+Qed.
+
+(* everything the property says about dicke_state, for every number of qubits *)
+Lemma dicke_all_spec n k : 1 <= n -> 0 <= k <= n ->
+  exists idx, dicke_indices n k = DIdx idx /\
+    (forall i, In i idx <-> 0 <= i < 2 ^ n /\ popcount i = k) /\ StronglySorted Z.lt idx /\ NoDup idx /\
+    (qsum (dicke_probs n idx) == 1)%Q /\
+    (forall i, 0 <= i < 2 ^ n ->
+       nth (Z.to_nat i) (dicke_probs n idx) 0%Q
+       = if Z.eqb (popcount i) k then (1 # Pos.of_nat (length idx))%Q else 0%Q).
+Proof.
+  intros Hn Hk. destruct (dicke_indices_all n k Hn Hk) as (idx & E & Hm & Hs). exists idx.
+  pose proof (sorted_lt_NoDup idx Hs) as Hnd.
+  split; [exact E|]. split; [exact Hm|]. split; [exact Hs|]. split; [exact Hnd|]. split.
+  - apply dicke_probs_sum; [exact Hnd|intros i Hi; apply Hm in Hi; apply Hi|].
+    assert (Hin : In (2 ^ k - 1) idx).
+    { apply Hm. assert (0 < 2 ^ k) by (apply Z.pow_pos_nonneg; lia).
+      assert (2 ^ k <= 2 ^ n) by (apply Z.pow_le_mono_r; lia). split; [lia|apply popcount_ones; lia]. }
+    intro E0. rewrite E0 in Hin. exact Hin.
+  - intros i Hi. rewrite dicke_probs_nth by exact Hi.
+    destruct (Z.eqb_spec (popcount i) k) as [Ep|Ep].
+    + assert (Hmem : memZ i idx = true) by (apply memZ_spec, Hm; auto). rewrite Hmem. reflexivity.
+    + destruct (memZ i idx) eqn:Hmem; [|reflexivity]. apply memZ_spec, Hm in Hmem. tauto.
 Qed.
